@@ -283,6 +283,28 @@ Proof.
   destruct (handle_pass T st (rstrip p)) as [st' rs]. reflexivity.
 Qed.
 
+(* the complement of the domain: a verb whose lower() is neither "pass" nor "user" is NOT a login
+   attempt for the modelled server, whatever other case mapping (casefold, upper, NFKC) would make
+   of it: the state is untouched, no user manager is consulted, the answer is the 502 of an unknown
+   command, and the line is logged like any unknown command.  With pass_spellings: the login verbs
+   are exactly the 16 ASCII case mixes of "pass"; "PA\u00df", "pa\u017fs", fullwidth letters are not. *)
+Theorem other_verbs_are_not_logins censor T users st V p w :
+  nospace V -> allspace w -> lower V <> VERB_PASS -> lower V <> VERB_USER ->
+  server_step censor T users st (V ++ SP :: p ++ w)
+  = (st, [server_parse_command_log censor (V ++ SP :: p ++ w);
+          reply_log (reply_line (unknown_verb_reply (lower V)))]).
+Proof.
+  intros Hns Hw Hp Hu. unfold server_step. rewrite (split_command_line V p w Hns Hw).
+  destruct (text_eqb (lower V) VERB_USER) eqn:Eu; [apply text_eqb_eq in Eu; contradiction|].
+  destruct (text_eqb (lower V) VERB_PASS) eqn:Ep; [apply text_eqb_eq in Ep; contradiction|].
+  reflexivity.
+Qed.
+
+(* U+00DF and U+017F: casefold() would read "pass", lower() does not *)
+Example sharp_s_is_not_pass :
+  lower [80; 65; 223] <> VERB_PASS /\ lower [112; 97; 383; 115] <> VERB_PASS.
+Proof. split; vm_compute; congruence. Qed.
+
 (* every record emitted while handling V ++ " " ++ p (the command echo and the replies), and
    the state afterwards, are the same for two passwords of equal (rstripped) length that the
    user manager treats alike (both accepted / both rejected / not consulted) *)
